@@ -1,4 +1,5 @@
 """C10 (max_seq_len) and C11 (depth), decided with spec/PyTerm.tla via TermTrace.tla."""
+import collections
 import itertools
 import os
 import re
@@ -77,7 +78,58 @@ def systematic_trees():
     return out
 
 
+Pair = collections.namedtuple('Pair', ['left', 'right'])
+
+
+class Box:
+    """a user type printed with pretty_call(ctx, Box, *items, tag=...)"""
+
+    def __init__(self, *items, tag=None):
+        self.items, self.tag = items, tag
+
+
+@P.register_pretty(Box)
+def _pretty_box(v, ctx):
+    return P.pretty_call(ctx, Box, *v.items, tag=v.tag)
+
+
+pyterm.CALL_VALUES[Box] = lambda v: ('checks.limits.Box', v.items, [('tag', v.tag)])
+
+
+def call_trees(rng, n):
+    """Trees that also contain instances of types printed as calls - namedtuples, SimpleNamespace, a user type with a
+    pretty_call printer: they are containers too (their fields are nested one level deeper)."""
+    import types
+    fresh = Fresh()
+
+    def t(depth):
+        if depth == 0 or rng.random() < 0.2:
+            return fresh.leaf(rng)
+        k = rng.choice(['list', 'tuple', 'dict', 'pair', 'ns', 'box', 'pair', 'box'])
+        if k == 'list':
+            return [t(depth - 1) for _ in range(rng.choice([1, 2, 3]))]
+        if k == 'tuple':
+            return tuple(t(depth - 1) for _ in range(rng.choice([1, 2])))
+        if k == 'dict':
+            return {fresh.leaf(rng): t(depth - 1) for _ in range(rng.choice([1, 2]))}
+        if k == 'pair':
+            return Pair(t(depth - 1), t(depth - 1))
+        if k == 'ns':
+            return types.SimpleNamespace(b=t(depth - 1), a=fresh.leaf(rng))
+        return Box(*[t(depth - 1) for _ in range(rng.choice([0, 1, 2]))], tag=t(depth - 1))
+    out = [Pair(1, [2, (3,)]), [4, Pair(5, 6)], [[Pair([7, [8]], {9: 10})], 11], types.SimpleNamespace(x=[12], y=13),
+           Box(14, [15], tag={16: Pair(17, 18)}), {19: Box(tag=[20])}]
+    for _ in range(n):
+        out.append(t(rng.choice([1, 2, 3, 4])))
+    return out
+
+
 def height(v):
+    import types
+    if isinstance(v, Box):
+        return 1 + max([0] + [height(x) for x in v.items] + [height(v.tag)])
+    if isinstance(v, types.SimpleNamespace):
+        return 1 + max([0] + [height(x) for x in v.__dict__.values()])
     if isinstance(v, dict):
         return 1 + max([0] + [max(height(k), height(x)) for k, x in v.items()])
     if isinstance(v, (list, tuple, set, frozenset)):
@@ -349,6 +401,7 @@ def check_c11(chk, args):
     cases = {}
     meta = {}
     nprints = 0
+    vals = vals + call_trees(rng, 60 if q else 1500)
     printed = [(v, v) for v in vals]
     # depth x comments: the same trees with comment wrappers (a commented dict value is rendered a second time, lazily,
     # with a context of its own); comments are inert, so the cut is that of the plain tree
